@@ -33,12 +33,21 @@ type c12Variant struct {
 	HelperV  int
 	Typecast bool
 	BadNote  bool // rejected variant: diagnostics must not depend on the output path either
+	// NoSibling leaves out the method over the sibling file's structs. Its generated code needs a package that only the
+	// sibling imports, and finding that import makes goimports scan GOROOT and the module cache on every run (about
+	// 0.1 s and much file-system traffic): kept for part of the variants only.
+	NoSibling bool
+	SibOnlyT  bool
 }
 
 func (v c12Variant) render() string {
 	var sb strings.Builder
 	sb.WriteString("//go:build convergen\n\npackage home\n\n")
-	if v.UseA {
+	if v.UseA && v.HelperV%2 == 1 {
+		// under its own name: the output of this variant imports a/model as "model", the name by which the sibling
+		// file's b/model is known in the output of the variants that do not import a/model
+		sb.WriteString("import (\n\t\"example.com/m/a/model\"\n\t\"example.com/m/ext\"\n)\n\n")
+	} else if v.UseA {
 		sb.WriteString("import (\n\tam \"example.com/m/a/model\"\n\t\"example.com/m/ext\"\n)\n\n")
 	} else {
 		sb.WriteString("import \"example.com/m/ext\"\n\n")
@@ -53,10 +62,17 @@ func (v c12Variant) render() string {
 		}
 		sb.WriteString(m)
 	}
-	if v.UseA {
+	if v.UseA && v.HelperV%2 == 1 {
+		sb.WriteString("\t// :typecast\n\tConvertModelA(*model.T) *SibD\n")
+	} else if v.UseA {
 		sb.WriteString("\t// :typecast\n\tConvertModelA(*am.T) *SibD\n")
 	}
-	sb.WriteString("\t// :typecast\n\tConvertSibling(*SibS) *SibD\n")
+	if !v.NoSibling && v.SibOnlyT {
+		// needs nothing but the name T from the package that only the sibling imports (both model packages export a T)
+		sb.WriteString("\tConvertSiblingT(*SibS2) *SibD2\n")
+	} else if !v.NoSibling {
+		sb.WriteString("\t// :typecast\n\tConvertSibling(*SibS) *SibD\n")
+	}
 	sb.WriteString("\t// :getter\n\tConvertFromDependency(*ext.Inner2) *WithExtra\n")
 	if v.BadNote {
 		sb.WriteString("\t// :style sideways\n\tConvertRejected(*A) *B\n")
@@ -81,15 +97,25 @@ const c12Sibling = `package home
 import bm "example.com/m/b/model"
 
 type SibS struct {
-	A int
-	N int
-	V []int
+	A  int
+	N  int
+	V  []int
+	Ts []bm.T
 }
 
 type SibD struct {
-	A int
-	N bm.BInt
-	V []bm.BInt
+	A  int
+	N  bm.BInt
+	V  []bm.BInt
+	Ts []bm.T
+}
+
+type SibS2 struct {
+	Ts []bm.T
+}
+
+type SibD2 struct {
+	Ts []bm.T
 }
 `
 
@@ -109,6 +135,13 @@ func genC12Family(t *rapid.T) []c12Variant {
 	for i := 0; i < n; i++ {
 		v := c12Variant{TA: rapid.SampledFrom(types).Draw(t, "ta"), TB: rapid.SampledFrom(types).Draw(t, "tb"), HelperV: i,
 			Typecast: rapid.Bool().Draw(t, "typecast"), UseA: rapid.IntRange(0, 2).Draw(t, "useA") == 0}
+		// a family either uses the sibling-only import throughout or not at all (2 in 5 do)
+		if i == 0 {
+			v.NoSibling = rapid.IntRange(0, 4).Draw(t, "noSibling") >= 2
+		} else {
+			v.NoSibling = fam[0].NoSibling
+		}
+		v.SibOnlyT = rapid.Bool().Draw(t, "sibOnlyT")
 		k := rapid.IntRange(1, 3).Draw(t, "nm")
 		perm := rapid.Permutation(c12MethodPool).Draw(t, "methods")
 		v.Methods = perm[:k]
@@ -194,6 +227,7 @@ var c12Broken = []string{
 	"package home\n\ntype B struct{ X func() }\n\nfunc ConvertAToB(src *A) (dst *B) { return nil }\n",
 	"\x00\x01\x02 not go at all",
 	"",
+	c13Stale, // a complete valid file of the package whose imports use the names of other zoo packages
 }
 
 // corruptionClass names the kind of content left at the output path (middle part of the fingerprint).
@@ -209,6 +243,12 @@ func corruptionClass(pre *string, clean map[string]bool) string {
 		if len(s) > len(c) && strings.HasPrefix(s, c) {
 			return "good-output-plus-appended-text"
 		}
+		if s == strings.ReplaceAll(c, "\n", "\r\n") || s == strings.TrimSuffix(c, "\n") {
+			return "good-output-re-encoded"
+		}
+	}
+	if s == c13Stale {
+		return "valid-file-with-other-imports"
 	}
 	for c := range clean {
 		if strings.HasPrefix(c, s) {
@@ -264,6 +304,16 @@ func c12Judge(env *hx.Env, m c12Meta, rec *hx.Recorder) (hx.Verdict, int) {
 		case "append":
 			if cur := readOpt(outAbs); cur != nil {
 				_ = os.WriteFile(outAbs, []byte(*cur+st.Text), 0o644)
+				corrupted = true
+			}
+		case "reencode":
+			// the good output re-encoded without changing the text of any line: CRLF line ends (Arg 0) or no final newline
+			if cur := readOpt(outAbs); cur != nil && len(*cur) > 0 {
+				t := strings.ReplaceAll(*cur, "\n", "\r\n")
+				if st.Arg == 1 {
+					t = strings.TrimSuffix(*cur, "\n")
+				}
+				_ = os.WriteFile(outAbs, []byte(t), 0o644)
 				corrupted = true
 			}
 		case "stale", "break":
@@ -331,7 +381,7 @@ func c12Judge(env *hx.Env, m c12Meta, rec *hx.Recorder) (hx.Verdict, int) {
 func TestC12(t *testing.T) {
 	env, rec := start(t, "C12", "fault_enumeration",
 		"(a) rapid state machine over a scratch package with a family of 3-5 setup-file variants that redefine the same type and function names differently (types declared in the setup file and carried over): "+
-			"actions edit(variant), run, truncate(k), stale(output of another variant; variants differ in methods, field types, whether they import a/model, and some are an earlier variant minus its last method), append(text after the good output), break(one of ten same-package corruptions: unbalanced braces, half a declaration, duplicate declarations, garbage, unresolved import, unterminated import, bare package clause, conflicting redefinitions, binary junk, empty), delete; "+
+			"actions edit(variant), run, truncate(k), stale(output of another variant; variants differ in methods, field types, whether they import a/model, and some are an earlier variant minus its last method), append(text after the good output), reencode(the good output with CRLF line ends or without its final newline), break(one of eleven same-package contents: unbalanced braces, half a declaration, duplicate declarations, garbage, unresolved import, unterminated import, bare package clause, conflicting redefinitions, binary junk, empty, a complete valid file with other imports), delete; "+
 			"(b) crash-point sweep: for outputs of several variants every truncation point 0..len (quick: every byte of one output; thorough: six outputs). "+
 			"Oracle: each run is done twice in the same directory, with the output path emptied and with the previous content restored: equal exit status, stdout, stderr, bytes; run;run changes nothing. "+
 			"Non-trivial: a judged run preceded by truncate/stale/break since the last run; histories distinct by hash, sweep points by construction.")
@@ -380,7 +430,7 @@ func TestC12(t *testing.T) {
 	// (b) crash-point sweep
 	t.Run("crash-point-sweep", func(t *testing.T) {
 		fams := [][]c12Variant{
-			{{TA: "int", TB: "int", Methods: c12MethodPool[:1]}},
+			{{TA: "int", TB: "int", Methods: c12MethodPool[:1], NoSibling: true}},
 			{{TA: "int", TB: "int64", Typecast: true, Methods: c12MethodPool[1:4]}},
 			{{TA: "string", TB: "LInt", Methods: c12MethodPool[3:6]}},
 			{{TA: "LInt", TB: "int", Typecast: true, Methods: c12MethodPool[:3]}},
@@ -454,8 +504,10 @@ func TestC12(t *testing.T) {
 					continue
 				}
 				m.Steps = append(m.Steps, c12Step{Op: "stale", Text: o}, c12Step{Op: "run"})
-			case k < 90:
+			case k < 89:
 				m.Steps = append(m.Steps, c12Step{Op: "break", Text: rapid.SampledFrom(c12Broken).Draw(rt, "broken")}, c12Step{Op: "run"})
+			case k < 92:
+				m.Steps = append(m.Steps, c12Step{Op: "reencode", Arg: rapid.IntRange(0, 1).Draw(rt, "reencoding")}, c12Step{Op: "run"})
 			case k < 95:
 				// something appended to the good output (left-over of a longer earlier result)
 				m.Steps = append(m.Steps, c12Step{Op: "append", Text: rapid.SampledFrom([]string{"\nfunc leftOver() int { return 1 }\n", "// trailing junk", "\n\n", "}", "\nfunc ConvertAToB(src *A) (dst *B) {\n\treturn nil\n}\n"}).Draw(rt, "appended")}, c12Step{Op: "run"})
@@ -486,7 +538,7 @@ func TestC12(t *testing.T) {
 		nontrivial := false
 		for _, s := range m.Steps {
 			ops = append(ops, s.Op)
-			if s.Op == "truncate" || s.Op == "stale" || s.Op == "break" || s.Op == "append" {
+			if s.Op == "truncate" || s.Op == "stale" || s.Op == "break" || s.Op == "append" || s.Op == "reencode" {
 				nontrivial = true
 			}
 		}
